@@ -102,6 +102,15 @@ func compareIndex(seen map[string]bool, view consensus.UTXO, curMin uint64, useM
 		if len(want) >= int(useMapCnt) {
 			st.mapForm++
 		}
+		if st.peak == nil {
+			st.peak = map[string]int{}
+		}
+		if len(want) > st.peak[scr] {
+			st.peak[scr] = len(want)
+		}
+		if useMapCnt >= 4 && st.peak[scr] >= int(useMapCnt) && len(want) > 0 && len(want) <= int(useMapCnt)/4 {
+			st.shrunkFromMap++
+		}
 	}
 	// an address of ANOTHER witness version with the program of an indexed version-0 address denotes another
 	// script (not a standard one, not indexed): asking for it must not return the version-0 address's outputs
